@@ -118,6 +118,22 @@ theorem each_queued_clientHeaders_orphaned_exactly_once (limit : Nat) (ops : Lis
     (by simp [Lemmas.ControlBuf.Ledger, init])
   simpa [Lemmas.ControlBuf.Ledger, Lemmas.ControlBuf.hdrIds] using h
 
+/-- Consequence, in the form "no stream-creation request is accepted and then forgotten": once the
+    buffer is closed, every accepted clientHeaders item was either handed to the writer or orphaned —
+    whatever the interleaving of puts, gets and finish. (A put that is concurrent with finish is
+    ordered by `c.mu` either before it — accepted, then orphaned — or after it — rejected.) -/
+theorem accepted_clientHeaders_delivered_or_orphaned (limit : Nat) (ops : List Op) (it : Item)
+    (hc : (run (init limit) ops).1.closed = true) (ha : it ∈ acceptedOf (run (init limit) ops).2)
+    (hh : it.hdr = true) :
+    it ∈ deliveredOf (run (init limit) ops).2 ∨ it.id ∈ orphanedOf (run (init limit) ops).2 := by
+  obtain ⟨dropped, h1, h2, _⟩ := (each_queued_clientHeaders_orphaned_exactly_once limit ops).2 hc
+  rw [← h1] at ha
+  rcases List.mem_append.mp ha with hd | hd
+  · exact Or.inl hd
+  · refine Or.inr ?_
+    rw [h2]
+    exact List.mem_map.mpr ⟨it, List.mem_filter.mpr ⟨hd, by simpa using hh⟩, rfl⟩
+
 /-- The code never dereferences a nil throttling channel and never closes one twice. -/
 theorem no_panic (limit : Nat) (hl : 1 ≤ limit) (ops : List Op) (o : Op) :
     (step (run (init limit) ops).1 o).2 ≠ .panic := by
